@@ -948,6 +948,11 @@ def gen_extract(r, profile):
 				p["max_counts"] = thr(r.choice([0.6, 0.8, 0.95]))
 			if r.random() < 0.3 and p["min_counts"] is not None:
 				p["min_counts"] = int(p["min_counts"])   # integer threshold
+			if r.random() < 0.2:
+				# thresholds that are exactly zero ("only loci without any
+				# signal" / "at least nothing")
+				p["max_counts"] = r.choice([0, 0.0])
+				p["min_counts"] = r.choice([None, 0, None])
 	if profile == "n-loci" or r.random() < 0.1:
 		glen = dict(zip(names, lens))
 		sig = make_signals(p["gseed"], [tuple(x) for x in p["chroms"]], S,
